@@ -371,3 +371,26 @@ VARIANTS["C09"].extend(TWINS4["C06"] + TWINS4["C07"])
 VARIANTS["C05"].extend(TWINS4["C07"] + TWINS4["C09"] + TWINS4["C06"])
 VARIANTS["C07"].extend(TWINS4["C09"])
 VARIANTS["C03"].extend([OK("twin-aad-slice-from-zero", [(C, "            aad = datagram[:PacketHeader.SIZE]", "            aad = datagram[0:PacketHeader.SIZE]")])])
+
+H = "http_server.py"
+TWINS4B = {
+    "C11": [OK("twin-reply-mode-in-a-local", [(C, "        self._send_type(PacketType.SERVER_HELLO, payload, RetryMode.NONE, None)", "        mode = RetryMode.NONE\n        self._send_type(PacketType.SERVER_HELLO, payload, mode, None)")])],
+    "C13": [OK("twin-header-in-a-local", [(S, "        stream.write(struct.pack(\">H\", self.type_id))\n\n    def serialize(self, stream, **kwargs):\n\n        \"\"\" Write the content",
+                                           "        header = struct.pack(\">H\", self.type_id)\n        stream.write(header)\n\n    def serialize(self, stream, **kwargs):\n\n        \"\"\" Write the content")])],
+    "C14": [OK("twin-read-exact-helper-bounded", [(S, "    return stream.read(length).decode(\"utf-8\")\n", "    return _read_exact(stream, length).decode(\"utf-8\")\n"),
+                                                   (S, "def deserialize_string(stream, **kwargs):\n", "def _read_exact(stream, length):\n    data = stream.read(length)\n    while len(data) < length:\n        chunk = stream.read(length - len(data))\n        if not chunk:\n            break\n        data += chunk\n    return data\n\ndef deserialize_string(stream, **kwargs):\n")])],
+    "C16": [OK("twin-method-names-constant-fresh-lists", [(H, "        self.route_table = {\n            \"DELETE\": [],\n            \"GET\": [],\n            \"POST\": [],\n            \"PUT\": [],\n        }",
+                                                           "        self.route_table = {method: [] for method in (\"DELETE\", \"GET\", \"POST\", \"PUT\")}")])],
+    "C17": [OK("twin-prefix-in-a-local", [(H, "    if path != root_directory and not path.startswith(root_directory.rstrip(\"/\") + \"/\"):",
+                                           "    prefix = root_directory.rstrip(\"/\") + \"/\"\n    if path != root_directory and not path.startswith(prefix):")])],
+    "C18": [OK("twin-opcodes-in-decimal", [(H, "    Ping = 0x9\n    Pong = 0xA", "    Ping = 9\n    Pong = 10")])],
+    "C19": [OK("twin-kdf-helper-with-explicit-parameters", [("auth.py", "        kdf = scrypt.Scrypt(salt, Auth.DIGEST_LENGTH, N, r, p,\n            backend=default_backend())", "        kdf = Auth._kdf(salt, Auth.DIGEST_LENGTH, N, r, p)"),
+                                                             ("auth.py", "        kdf = scrypt.Scrypt(salt, length, N, r, p, backend=default_backend())", "        kdf = Auth._kdf(salt, length, N, r, p)"),
+                                                             ("auth.py", "    @staticmethod\n    def hash_password(password: bytes) -> str:", "    @staticmethod\n    def _kdf(salt, length, N, r, p):\n        return scrypt.Scrypt(salt, length, N, r, p, backend=default_backend())\n\n    @staticmethod\n    def hash_password(password: bytes) -> str:")])],
+    "C20": [OK("twin-register-collects-a-list-first", [("dispatch.py", "        for name in dir(resource):\n            attr = getattr(resource, name)\n            if inspect.isroutine(attr) and hasattr(attr, \"_event\"):\n                self.register_function(attr._event, attr)\n",
+                                                        "        found = []\n        for name in dir(resource):\n            attr = getattr(resource, name)\n            if inspect.isroutine(attr) and hasattr(attr, \"_event\"):\n                found.append(attr)\n        for attr in found:\n            self.register_function(attr._event, attr)\n")])],
+}
+for _k, _v in TWINS4B.items():
+    VARIANTS[_k].extend(_v)
+VARIANTS["C14"].extend(TWINS4B["C13"])
+VARIANTS["C13"].extend(TWINS4B["C14"])
